@@ -4,7 +4,7 @@
 (* on every input up to the bound and (2) printed as one JSON behaviour with *)
 (* the spec's expected result of every API call, to be replayed into the     *)
 (* real code.                                                                *)
-EXTENDS Gen, Beh, Laws, Search, Scan
+EXTENDS Gen, Beh, Laws, OpSem, Scan
 
 CONSTANTS EmitMode, Variants
 
@@ -40,6 +40,7 @@ FlagsI == {Fl(i, FALSE, FALSE) : i \in BOOLEAN}
 ShapesAll == {"grp", "ncg", "seq", "alt", "eps"}
 
 LvAB == {Chr(97), Chr(98)}
+LvABEol == {Chr(97), Chr(98), EolL}
 LvCore == {Chr(97), Chr(98), Dot, Cls(FALSE, <<IC(97), IC(98)>>), Cls(TRUE, <<IC(97)>>)}
 LvAnch == {Chr(97), Dot, BolL, EolL, Chr(10), Cls(TRUE, <<IC(97)>>)}
 LvBref == {Chr(97), Chr(98), Bref(1), Bref(2)}
@@ -60,6 +61,7 @@ ABorA == [k |-> "ncg", r |-> [k |-> "alt", xs |-> <<[k |-> "seq", xs |-> <<Chr(9
 APlus == [k |-> "ncg", r |-> [k |-> "rep", r |-> Chr(97), min |-> 1, max |-> -1, lazy |-> FALSE, q |-> "s"]]   \* (?:a+)
 LvLaws == {Chr(97), Chr(98), Dot, Cls(FALSE, <<IC(97), IC(98)>>), BolL, Bref(1), AorAB, APlus}
 LvVarLen == {Chr(97), Chr(98), AorAB, ABorA, APlus, EolL}           \* bodies that can end at more than one position
+QVarLen == QSmall \cup {Q(0, 2, FALSE, "n"), Q(0, 2, TRUE, "n"), Q(2, 3, FALSE, "n")}   \* ... under bounded quantifiers that start at 0 / end above min
 QDial == {QStar, QPlus, QOpt, QStarL, QOptL, Q(1, 1, TRUE, "n"), Q(0, 0, TRUE, "n"), Q(1, 1, FALSE, "n"), Q(2, 2, FALSE, "n"),
           Q(1, 2, TRUE, "n")}
 QLaws == {QStar, QPlus, QOpt, QPlusL, Q(0, 0, FALSE, "n"), Q(2, 2, FALSE, "n"), Q(1, 2, FALSE, "n"), Q(2, -1, FALSE, "n"),
@@ -73,6 +75,8 @@ GrpA == [k |-> "grp", n |-> 0, r |-> Chr(97)]
 GrpB == [k |-> "grp", n |-> 0, r |-> Chr(98)]
 LvMlCaps == {BolL, GrpA, GrpB, Chr(10)}                            \* groups in alternatives behind ^ under flag m
 ShapesNoGrp == {"ncg", "seq", "alt"}
+ShapesSeq == {"seq"}
+QNone == {}
 ReplG2 == <<91, 36, 49, 124, 36, 50, 93>>                              \* "[$1|$2]"
 NcgAB == [k |-> "ncg", r |-> [k |-> "seq", xs |-> <<Chr(97), Chr(98)>>]]                          \* (?:ab)
 NcgABorBA == [k |-> "ncg", r |-> [k |-> "alt", xs |-> <<[k |-> "seq", xs |-> <<Chr(97), Chr(98)>>],
@@ -82,6 +86,20 @@ LvOptFix == {BolL, Chr(98), NcgAB, NcgABorBA, NcgABorB}
 LvLawFix == {Chr(98), NcgAB, NcgABorB}
 QLawFix == {Q(2, 2, FALSE, "n"), Q(2, -1, FALSE, "n"), Q(1, 2, FALSE, "n"), QStar}         \* multi-character fixed-length bodies, anchors
 QFix == {Q(2, 2, FALSE, "n"), Q(1, 2, FALSE, "n"), Q(2, -1, FALSE, "n"), Q(0, 2, FALSE, "n"), QStar, QPlusL}
+GrpAorDot == [k |-> "ncg", r |-> [k |-> "alt", xs |-> <<GrpA, Dot>>]]                         \* (?:(a)|.)
+GrpAorB == [k |-> "ncg", r |-> [k |-> "alt", xs |-> <<GrpA, Chr(98)>>]]                        \* (?:(a)|b)
+LvBrefAlt == {Chr(98), Bref(1), GrpAorDot, GrpAorB}            \* fixed-length bodies with a group in ONE alternative, \1 behind them
+QBrefAlt == {Q(2, 2, FALSE, "n"), Q(1, 2, FALSE, "n"), QStar, QPlusL}
+LvCaseRange == {Cls(FALSE, <<IR(32, 102)>>), Cls(TRUE, <<IR(32, 102)>>), Cls(FALSE, <<IR(70, 122)>>), Cls(FALSE, <<IR(1024, 1103)>>),
+                Cls(FALSE, <<IR(192, 960)>>), ClsSub(FALSE, <<IR(32, 126)>>, Cls(FALSE, <<IR(71, 90)>>)), Chr(103)}
+                \* wide ranges with caseless or mismatched end points: [ -f] [^ -f] [F-z] [\u0400-\u044F] [\u00C0-\u03C0] [ -~-[G-Z]]
+StarABorC == [k |-> "ncg", r |-> [k |-> "rep", r |-> [k |-> "ncg", r |-> [k |-> "alt", xs |-> <<[k |-> "seq", xs |-> <<Chr(97), Chr(98)>>], Chr(99)>>]],
+                                    min |-> 0, max |-> -1, lazy |-> FALSE, q |-> "s"]]                   \* (?:(?:ab|c)*)
+LazyStarAorBC == [k |-> "ncg", r |-> [k |-> "rep", r |-> [k |-> "ncg", r |-> [k |-> "alt", xs |-> <<Chr(97), [k |-> "seq", xs |-> <<Chr(98), Chr(99)>>]>>]],
+                                        min |-> 0, max |-> -1, lazy |-> TRUE, q |-> "s"]]                \* (?:(?:a|bc)*?)
+AltStarOrD == [k |-> "ncg", r |-> [k |-> "alt", xs |-> <<StarABorC.r, Chr(100)>>]]                   \* (?:(?:ab|c)*|d)
+AltDOrLazy == [k |-> "ncg", r |-> [k |-> "alt", xs |-> <<Chr(100), LazyStarAorBC.r>>]]               \* (?:d|(?:a|bc)*?)
+LvAltNull == {Chr(120), Chr(97), StarABorC, AltStarOrD, AltDOrLazy}     \* alternatives that match nothing or a variable-length run
 LvNest == {Chr(97), Chr(98), GrpA, GrpB}                             \* groups under loops under loops
 LvCaseOpt == {Chr(233), Chr(201), Chr(955), Chr(923), Chr(53)}        \* non-ASCII letters next to quantified letters (flag i)
 LvPunct == {Chr(91), Chr(123), Chr(94), Chr(126), Chr(64), Chr(96), Chr(95), Chr(97),
@@ -98,6 +116,10 @@ QOptOnly == {QOpt}
 LvWs == {Chr(97), Cls(FALSE, <<IC(97), IC(32)>>), Chr(91), Chr(93), Chr(92), Bare(IE("d")),
          Bare([t |-> "p", neg |-> FALSE, name |-> "Lu"]), Cls(TRUE, <<IC(9), IR(97, 98)>>),
          ClsSub(FALSE, <<IR(97, 99), IC(32)>>, Cls(FALSE, <<IC(98)>>))}                  \* [a-c -[b]] : a subtraction
+NcgA == [k |-> "ncg", r |-> Chr(97)]                                                            \* (?:a)
+GrpOptB == [k |-> "grp", n |-> 0, r |-> [k |-> "rep", r |-> Chr(98), min |-> 0, max |-> 1, lazy |-> FALSE, q |-> "s"]]   \* (b?)
+LvWsNest == {NcgA, GrpOptB, Chr(97)}          \* (?: ...) in front of nested groups that match nothing: what analyze's nesting depends on
+ShapesGrpSeq == {"grp", "seq"}
 LvDial == {Chr(97), BolL, EolL, Chr(36), Chr(94), Bref(1), Dot, Cls(FALSE, <<IC(97), IC(94)>>)}
 LvBrefI == {Chr(97), Chr(65), Chr(98), Bref(1)}
 Grp0(r) == [k |-> "grp", n |-> 0, r |-> r]
@@ -171,7 +193,7 @@ T16_Laws == Done => \A w \in LawPairs(Ast, fl) :
   /\ Parse(Render(b), TRUE).v = "ok" /\ Parse(Render(b), TRUE).ast = b             \* the rewrite is well-formed
   /\ \A s \in Inputs :
        /\ IsMatch(Ast, Ng, s, fl) = IsMatch(b, ngb, s, fl)
-       /\ (Strict(Ast) /\ Strict(b) /\ ~Nullable(Ast, Ng, fl) /\ ~(HasBref(Ast) /\ IterAmbig(Ast))) =>
+       /\ (w.same # "m" /\ Strict(Ast) /\ Strict(b) /\ ~Nullable(Ast, Ng, fl) /\ ~(HasBref(Ast) /\ IterAmbig(Ast))) =>
              LET ma == AllMatches(Ast, Ng, s, fl)  mb == AllMatches(b, ngb, s, fl) IN
              [j \in 1..Len(ma) |-> <<ma[j].st, ma[j].en>>] = [j \in 1..Len(mb) |-> <<mb[j].st, mb[j].en>>]
 
@@ -182,6 +204,19 @@ T18_SearchSound == Done => LET P == ProgOf IN
   LangUnspec(P) \/ LET o == Program(P, Render(P.ast))  fa == FactsOf(P, o) IN
      \A s \in Inputs : \A i \in 1..Len(s) + 1 :
         SearchStart(P, fa, s, i) = LeftmostStart(P.ast, P.ng, s, i, P.F)
+
+(* T21 (C08, C20 - design level): the operator tree the model lowers the pattern to (Engine!Program, with every     *)
+(* "rep?" resolved to the non-backtracking repeat exactly where NoAmbig allows it) computes, operator by operator    *)
+(* the way the code does (OpSem!OpOrd), the first match the reference semantics defines.  Outside the strict        *)
+(* fragment, where the lowering rewrites quantifiers over empty-matching terms, the claim is about the language.     *)
+T21_OpSem == Done => LET P == ProgOf IN
+  LangUnspec(P) \/ LET U == Alpha \cup {Counterpart(c) : c \in Alpha} \cup {10}
+                       o == Resolve(Program(P, Render(P.ast)), P.F, U) IN
+     \A s \in Inputs : \A i \in 1..Len(s) + 1 :
+        LET a == OpFirstAt(o, P.ng, s, i, P.F) IN
+        IF P.strict /\ ~P.iterambig THEN a = FirstAt(P.ast, P.ng, s, i, P.F)
+        ELSE IF P.strict THEN (a # <<>> /\ a[1] = FirstAt(P.ast, P.ng, s, i, P.F)[1]) \/ (a = <<>> /\ FirstAt(P.ast, P.ng, s, i, P.F) = <<>>)
+        ELSE (a # <<>>) = IsMatchAt(P.ast, P.ng, s, i, P.F)
 
 (* T20 (C04, C15, C06 - design level): the scan loops of Scan.tla (replace with its latch, TokenIter, AnalyzeIter)     *)
 (* compute exactly what the declarative Api functions specify, on every input                                         *)
